@@ -705,9 +705,11 @@ func (c13) Check(c *core.Case, env *core.Env, res zzsim.Result, v *core.Verdict)
 				// registerEvent not yet answered - the registration confirmed
 				// at that moment was the previous one, whose removal a
 				// concurrent cancel had already decided. The event was emitted
-				// before that registerEvent was answered, at a moment the
-				// client held no confirmed registration it had not asked to
-				// remove.
+				// before that registerEvent was answered, and at some moment
+				// of its emission the client held no confirmed registration
+				// it had not asked to remove. (Any event frame on the
+				// connection reaches every local subscriber of the signal, so
+				// a miss means the server had no registration at all.)
 				if cause == "other" {
 					pendingFirst := false
 					for _, r := range cw.regs[s.sig] {
@@ -728,7 +730,10 @@ func (c13) Check(c *core.Case, env *core.Env, res zzsim.Result, v *core.Verdict)
 						}
 					}
 					for _, u := range cw.unregs[s.sig] {
-						if u < e.start {
+						// a removal requested while the event was being
+						// emitted may have been carried out before the
+						// emitter looked at the subscriber table
+						if u < e.end {
 							atEvent--
 						}
 					}
@@ -738,7 +743,16 @@ func (c13) Check(c *core.Case, env *core.Env, res zzsim.Result, v *core.Verdict)
 					}
 				}
 			}
-			bad("missed-event/"+cause, "%s did not receive event %d (emitted [%d..%d]); received %v", name, n, e.start, e.end, s.evs)
+			detail := ""
+			if cw != nil {
+				detail = fmt.Sprintf("\n  registrations of the signal on the connection (request written, reply read, reply written, ok): %v\n  unregister requests written at %v, acknowledged (written) at %v\n  local subscribers of the same (connection, signal):", cw.regs[s.sig], cw.unregs[s.sig], cw.unregAcks[s.sig])
+				for _, s2 := range st.subs {
+					if s2.conn == s.conn && s2.sig == s.sig {
+						detail += fmt.Sprintf(" #%d sub[%d..%d] cancel[%d..%d]", s2.sub, s2.ackCall, s2.ackRet, s2.cancelCall, s2.cancelRet)
+					}
+				}
+			}
+			bad("missed-event/"+cause, "%s did not receive event %d (emitted [%d..%d]); received %v%s", name, n, e.start, e.end, s.evs, detail)
 			break
 		}
 		if s.cancelRet != 0 && s.closedSeq == 0 {
